@@ -39,6 +39,48 @@ def apply_variant(norm_sources, v):
     return out
 
 
+def alpha_rename(text, suffix="_r"):
+    """Behaviour-preserving twin: every local variable of every function (names bound by assignment, loops,
+    comprehensions, `with`; never parameters, globals or attribute names) gets a new name.  A rule that
+    recognises a construct by the name of a local fires on this twin - which the self-test treats as a
+    false alarm."""
+    tree = ast.parse(text)
+
+    def do_func(fn):
+        excl = set()
+        stored = set()
+        for n in ast.walk(fn):
+            if isinstance(n, (ast.FunctionDef, ast.Lambda)):
+                a = n.args
+                for x in a.posonlyargs + a.args + a.kwonlyargs + ([a.vararg] if a.vararg else []) + ([a.kwarg] if a.kwarg else []):
+                    excl.add(x.arg)
+                if isinstance(n, ast.FunctionDef):
+                    excl.add(n.name)
+            elif isinstance(n, (ast.Global, ast.Nonlocal)):
+                excl.update(n.names)
+            elif isinstance(n, ast.Name) and isinstance(n.ctx, (ast.Store, ast.Del)):
+                stored.add(n.id)
+            elif isinstance(n, (ast.Import, ast.ImportFrom)):
+                for al in n.names:
+                    excl.add((al.asname or al.name).split(".")[0])
+            elif isinstance(n, ast.ExceptHandler) and n.name:
+                excl.add(n.name)
+        ren = {x for x in stored - excl if not x.startswith("__")}
+        for n in ast.walk(fn):
+            if isinstance(n, ast.Name) and n.id in ren:
+                n.id = n.id + suffix
+
+    def visit(node):
+        for ch in ast.iter_child_nodes(node):
+            if isinstance(ch, ast.FunctionDef):
+                do_func(ch)
+            elif isinstance(ch, ast.ClassDef):
+                visit(ch)
+
+    visit(tree)
+    return ast.unparse(tree)
+
+
 def _run_one(args):
     pid, vid, sources = args
     from .check import run_property
@@ -66,6 +108,8 @@ def run_selftest(pid, R=None, jobs=None, verbose=True):
         tasks.append((pid, v["id"], srcs))
     # the normalised, unmodified tree must be silent too (unparse round trip changes nothing the rules see)
     tasks.append((pid, "<normalised-tree>", base))
+    # ... and so must the tree with every local variable renamed (no rule may hang on the name of a local)
+    tasks.append((pid, "<locals-renamed>", {m: alpha_rename(t) for m, t in base.items()}))
     results = {}
     jobs = jobs or min(16, max(1, len(tasks)))
     with ProcessPoolExecutor(max_workers=jobs) as ex:
@@ -74,7 +118,7 @@ def run_selftest(pid, R=None, jobs=None, verbose=True):
     fired, silent, lost, false_alarm, errors = [], [], [], [], []
     byid = {v["id"]: v for v in vs}
     for vid, (code, viol, errs) in results.items():
-        if vid == "<normalised-tree>":
+        if vid in ("<normalised-tree>", "<locals-renamed>"):
             if code != 0:
                 false_alarm.append((vid, code, viol, errs))
             continue
